@@ -58,16 +58,23 @@ fn run_case(dir: &Path, c: &Case) -> Result<Vec<&'static str>, (String, String)>
     // accepted uploads in acceptance order: (endpoint, negotiated, content, blocks already sent)
     let mut accepted: Vec<(usize, Negotiated, Vec<u8>, usize)> = vec![];
     let mut classes = vec![];
+    let mut last_accept: Option<std::time::Instant> = None;
     for (i, a) in c.acts.iter().enumerate() {
         match a {
             Act::Wrq(j) => {
                 let j = *j as usize % 3;
+                let settled = last_accept.map(|t| t.elapsed() >= Duration::from_millis(400)).unwrap_or(false);
                 // drop stale datagrams of an earlier transfer of this endpoint
                 let _ = endpoints[j].drain(Duration::from_millis(1));
                 match wclient::start(&endpoints[j], srv.addr, true, name, &opts, Duration::from_millis(1500)) {
                     Start::Accepted { neg, .. } => {
+                        if !c.overwrite && settled && recv.join(name).exists() {
+                            // the earlier worker created the file long ago: without --overwrite this request names an existing file
+                            return Err(("duplicate-accepted-although-file-exists".into(), format!("WRQ #{} for {} was accepted without --overwrite although an upload accepted {:?} earlier has created the file", i, name, last_accept.map(|t| t.elapsed()))));
+                        }
                         let data = content(c.seed ^ (i as u64 * 31 + 5), c.len + i);
                         accepted.push((j, neg, data, 0));
+                        last_accept = Some(std::time::Instant::now());
                     }
                     Start::Refused { code, .. } => {
                         if code == 6 {
@@ -94,7 +101,7 @@ fn run_case(dir: &Path, c: &Case) -> Result<Vec<&'static str>, (String, String)>
                     }
                 }
             }
-            Act::Pause(ms) => std::thread::sleep(Duration::from_millis(*ms as u64 % 400)),
+            Act::Pause(ms) => std::thread::sleep(Duration::from_millis(*ms as u64 % 700)),
         }
     }
     if accepted.is_empty() {
@@ -225,7 +232,7 @@ pub fn strategy() -> BoxedStrategy<Case> {
     let act = prop_oneof![
         5 => (0u8..3).prop_map(Act::Wrq),
         2 => ((0u8..3), (0u8..4)).prop_map(|(j, k)| Act::Partial(j, k)),
-        1 => (0u16..300).prop_map(Act::Pause),
+        2 => prop_oneof![0u16..300, 450u16..650].prop_map(Act::Pause),
     ];
     (prop_oneof![3 => Just(true), 1 => Just(false)], any::<bool>(), prop_oneof![4 => Just(false), 1 => Just(true)], proptest::collection::vec(act, 1..6), 0usize..400, any::<u64>())
         .prop_map(|(overwrite, single, keep, mut acts, len, seed)| {
@@ -245,6 +252,11 @@ fn fixed_cases() -> Vec<Case> {
                 // a retransmitted WRQ from the same endpoint, and a second client for the same name
                 out.push(Case { overwrite, single, keep, acts: vec![Act::Wrq(0), Act::Wrq(0)], len: 100, seed: 1 });
                 out.push(Case { overwrite, single, keep, acts: vec![Act::Wrq(0), Act::Partial(0, 1), Act::Wrq(1)], len: 200, seed: 2 });
+                if !overwrite && !keep {
+                    // the duplicate arrives after the first worker has certainly created its (still empty) file
+                    out.push(Case { overwrite, single, keep, acts: vec![Act::Wrq(0), Act::Pause(500), Act::Wrq(0)], len: 100, seed: 3 });
+                    out.push(Case { overwrite, single, keep, acts: vec![Act::Wrq(0), Act::Pause(500), Act::Wrq(1)], len: 100, seed: 4 });
+                }
             }
         }
     }
